@@ -296,6 +296,49 @@ def create_functions(inp):
             if c == "u_w_per_m2k" and not has_u:
                 key = "std-type-equals-its-parameters/heat-transfer-coefficient"
             note(key, {"std_type": st, "column": c, "from_std_type": repr(a), "from_parameters": repr(b)})
+    # explicit values -- also 0 -- are values: they reach the row (single = bulk) and never change the std-type library
+    key = "explicit-values-incl-zero-reach-the-row-and-leave-the-library-alone"
+    res[key] = {"ok": True, "cases": 0, "witness": None}
+    for st in sorted(base.std_types["pipe"])[:4]:
+        for kname, kval in (("k_mm", 0.0), ("k_mm", 0.33), ("u_w_per_m2k", 0.0), ("u_w_per_m2k", 2.5)):
+            res[key]["cases"] += 1
+            n1, n2 = copy.deepcopy(base), copy.deepcopy(base)
+            lib0 = copy.deepcopy(dict(n1.std_types["pipe"][st]))
+            try:
+                i1 = pp.create_pipe(n1, 2, 3, st, 0.3, **{kname: kval})
+                i2 = pp.create_pipes(n2, [2], [3], st, 0.3, **{kname: kval})[0]
+                i3 = pp.create_pipe(n1, 2, 3, st, 0.3)
+                ref = copy.deepcopy(base)
+                i4 = pp.create_pipe(ref, 2, 3, st, 0.3)
+                bad = None
+                if float(n1.pipe.at[i1, kname]) != kval:
+                    bad = "create_pipe(%s=%r) stored %r" % (kname, kval, n1.pipe.at[i1, kname])
+                elif float(n2.pipe.at[i2, kname]) != kval:
+                    bad = "create_pipes(%s=%r) stored %r" % (kname, kval, n2.pipe.at[i2, kname])
+                elif dict(n1.std_types["pipe"][st]) != lib0 and not all(
+                        (a == b) or (a != a and b != b) for a, b in zip(dict(n1.std_types["pipe"][st]).values(), lib0.values())):
+                    bad = "std-type library entry changed: %r -> %r" % (lib0, dict(n1.std_types["pipe"][st]))
+                else:
+                    for c in n1.pipe.columns:
+                        a, b = n1.pipe.at[i3, c], ref.pipe.at[i4, c]
+                        if not ((a == b) or (a != a and b != b)):
+                            bad = "a second pipe of type %s after an override differs in %s: %r vs %r" % (st, c, a, b)
+                            break
+            except Exception as e:  # noqa
+                bad = "%s: %s" % (type(e).__name__, str(e)[:160])
+            if bad:
+                note(key, {"std_type": st, "override": {kname: kval}, "observed": bad})
+    for p_bar, t_k, want in ((0.0, 300., "pt"), (0.0, None, "p"), (None, 0.0, "t"), (5., 300., "pt"), (float("nan"), 300., "t")):
+        res[key]["cases"] += 1
+        n1, n2 = copy.deepcopy(base), copy.deepcopy(base)
+        try:
+            i1 = pp.create_ext_grid(n1, 1, p_bar=p_bar, t_k=t_k)
+            got = n1.ext_grid.at[i1, "type"]
+            bad = None if got == want else "create_ext_grid(p_bar=%r, t_k=%r) stored type %r, expected %r" % (p_bar, t_k, got, want)
+        except Exception as e:  # noqa
+            bad = "create_ext_grid(p_bar=%r, t_k=%r): %s: %s" % (p_bar, t_k, type(e).__name__, str(e)[:120])
+        if bad:
+            note(key, {"observed": bad})
     return {"checks": res}
 
 
